@@ -169,6 +169,18 @@ Theorem C01_removed_clones_gone : forall w ti n t d,
 Proof. exact removed_clones_gone. Qed.
 Print Assumptions C01_removed_clones_gone.
 
+(* whatever is not reachable is neither counted nor indexed - in every well-formed state, hence
+   after remove / remove_children / clear / filter / del alike *)
+Theorem C01_unreachable_uncounted : forall t n, WF t -> ~ In n (ids (forest_of t)) ->
+  ~ In n (reg t) /\ forall d, ~ In n (idx_get d (idx t)).
+Proof. exact unreachable_uncounted. Qed.
+Print Assumptions C01_unreachable_uncounted.
+
+Theorem C01_cleared_gone : forall w ti t, WFw w -> get_tree w ti = Some t ->
+  exists t', get_tree (snd (op_clear w ti)) ti = Some t' /\ forest_of t' = [] /\ reg t' = [] /\ idx t' = [].
+Proof. exact cleared_gone. Qed.
+Print Assumptions C01_cleared_gone.
+
 (* a node of one tree is not a node of another tree ("owner of every reachable node is the tree") *)
 Theorem C01_trees_disjoint : forall w i j ti tj n, WFw w -> i <> j -> get_tree w i = Some ti -> get_tree w j = Some tj ->
   In n (ids (forest_of ti)) -> ~ In n (ids (forest_of tj)).
